@@ -9,7 +9,7 @@ def check_equiv(chk, rule, module, cls, name, ref_src, key, what, host=None, ign
     host = host or cls
     fi = chk.prog.func(module, cls, name)
     S = chk.summary(module, cls, name, host=host, no_inline=no_inline, depth=depth)
-    Rf = chk.ref(ref_src, host, module=module, depth=depth)
+    Rf = chk.ref(ref_src, host, module=module, depth=depth, no_inline=no_inline)
     n, diffs = equiv.compare(S, Rf, limit=limit, ignore_fields=ignore_fields)
     hostname = "%s.%s" % (cls, name)
     chk.site()
